@@ -72,6 +72,9 @@ Proof.
   intros [k cl] [_ Hcl]. constructor; [exact Hcl|]. apply caps_slots_inr; auto.
 Qed.
 
+Lemma inline_slot_inr : forall mark n o s, inr mark n s -> Forall (slot_inr mark n) (inline_slot o s).
+Proof. intros. unfold inline_slot. destruct (wo_inline o); constructor; [exact H|constructor]. Qed.
+
 Lemma sami_slots_inr : forall st0 st s,
   inv st0 st -> inr (length st0) (length st) s -> Forall (slot_inr (length st0) (length st)) (sami_slots st s).
 Proof.
@@ -365,7 +368,8 @@ Proof.
   destruct (k =? W_DFXP)%Z.
   { destruct (apply_slots st1 _ _ []) as [st2 lg] eqn:Ea.
     assert (A : inv st st2 /\ (length st1 <= length st2)%nat).
-    { eapply apply_slots_inv; [exact I1| |exact Ea]. apply dfxp_slots_inr; auto. apply sel_langs_inr; auto. }
+    { eapply apply_slots_inv; [exact I1| |exact Ea]. apply Forall_app. split; [apply inline_slot_inr; exact Hs1|].
+      apply dfxp_slots_inr; auto. apply sel_langs_inr; auto. }
     destruct A as [A _]. destruct (p_err _); exact A. }
   destruct (k =? W_SAMI)%Z.
   { destruct (apply_slots st1 _ _ []) as [st2 lg] eqn:Ea.
@@ -401,7 +405,8 @@ Proof.
   { destruct s1; try (subst s2; exact I). exact V4. }
   destruct (apply_slots st4 _ _ lg3) as [st5 lg5] eqn:Ea.
   assert (C : inv st st5 /\ (length st4 <= length st5)%nat).
-  { eapply apply_slots_inv; [exact I4| |exact Ea]. apply dfxp_slots_inr; auto. apply sel_langs_inr; auto. }
+  { eapply apply_slots_inv; [exact I4| |exact Ea]. apply Forall_app. split; [apply inline_slot_inr; exact Hs2|].
+    apply dfxp_slots_inr; auto. apply sel_langs_inr; auto. }
   destruct C as [C _]. destruct (p_err _); exact C.
 Qed.
 
@@ -441,7 +446,7 @@ Lemma make_plan_last_indep : forall k o b l1 l2 t,
 Proof.
   intros k o b l1 l2 t. unfold make_plan, plan_core.
   destruct (k =? W_DFXP)%Z.
-  { destruct (plan_slots o (dfxp_codes (dfxp_langs o t))) as [sl [e|]]; [reflexivity|].
+  { destruct (plan_slots o (_ ++ dfxp_codes (dfxp_langs o t))) as [sl [e|]]; [reflexivity|].
     destruct (caps_tokens o 4 None b _). reflexivity. }
   destruct (k =? W_SINGLE)%Z.
   { destruct (plan_slots o _) as [sl [e|]]; [reflexivity|].
@@ -731,12 +736,12 @@ Lemma make_plan_err : forall k o b l t e, p_err (make_plan k o b l t) = Some e -
 Proof.
   intros k o b l t e H. unfold make_plan in H.
   destruct (k =? W_DFXP)%Z.
-  { destruct (plan_slots o (dfxp_codes (dfxp_langs o t))) as [sl [e1|]] eqn:E; simpl in H.
-    - inversion H; subst. apply (plan_slots_err o (dfxp_codes (dfxp_langs o t)) e). rewrite E. reflexivity.
+  { destruct (plan_slots o (inline_code o (tcode (tfield t 3)) ++ dfxp_codes (dfxp_langs o t))) as [sl [e1|]] eqn:E; simpl in H.
+    - inversion H; subst. apply (plan_slots_err o (inline_code o (tcode (tfield t 3)) ++ dfxp_codes (dfxp_langs o t)) e). rewrite E. reflexivity.
     - destruct (caps_tokens o 4 None b _). discriminate. }
   destruct (k =? W_SINGLE)%Z.
-  { destruct (plan_slots o (single_codes (wo_pos o) (dfxp_langs o t))) as [sl [e1|]] eqn:E; simpl in H.
-    - inversion H; subst. apply (plan_slots_err o (single_codes (wo_pos o) (dfxp_langs o t)) e). rewrite E. reflexivity.
+  { destruct (plan_slots o (inline_code o (wo_pos o) ++ single_codes (wo_pos o) (dfxp_langs o t))) as [sl [e1|]] eqn:E; simpl in H.
+    - inversion H; subst. apply (plan_slots_err o (inline_code o (wo_pos o) ++ single_codes (wo_pos o) (dfxp_langs o t)) e). rewrite E. reflexivity.
     - destruct (caps_tokens o 4 _ b _). discriminate. }
   destruct (k =? W_LEGACY)%Z.
   { destruct (caps_tokens o 8 None b _). discriminate. }
